@@ -209,5 +209,5 @@ fn case(rec: &mut Rec, ctx: &Ctx, idx: u64, rng: &mut ChaCha20Rng) {
 }
 
 pub fn run(ctx: &Ctx) -> Rec {
-  par_run(ctx, "sharing", ctx.n(3000, 100_000), |rec, i, rng| case(rec, ctx, i, rng))
+  par_run(ctx, "sharing", ctx.n(6000, 100_000), |rec, i, rng| case(rec, ctx, i, rng))
 }
